@@ -756,3 +756,6 @@ CASES.append({'name': 'ben38r5-goal-fallback-true', 'props': ['C20'], 'expect': 
               'edits': [('oxmpl-py/src/base/goal.rs', 'self.ask("is_satisfied", state, false)', 'self.ask("is_satisfied", state, true)')]})
 CASES.append({'name': 'ben36r3-projection-returned-unchecked', 'props': ['C11'], 'expect': ['C11.accept'], 'patch': '/verif/selftest/benign/ben36-r3.diff',
               'edits': [('oxmpl/src/base/spaces/so3_state_space.rs', '            if self.satisfies_bounds(&candidate) {\n                return Some(candidate);', '            if t <= 1.0 {\n                return Some(candidate);')]})
+case('benign-c17-rewire-only-with-neighbours', ['C17', 'C15', 'C06', 'C03'], [],
+     (RRTS, "            // 8. Rewire tree\n            for &neighbour_idx in &neighbours {", "            // 8. Rewire tree\n            if !neighbours.is_empty() {\n            for &neighbour_idx in &neighbours {"),
+     (RRTS, "                    mutable_neighbour_node.cost = cost_via_new_node;\n                }\n            }\n", "                    mutable_neighbour_node.cost = cost_via_new_node;\n                }\n            }\n            }\n"))
